@@ -1,6 +1,8 @@
 module code.gopub.tech/tpl/cmd/xtpl
 
-go 1.18
+go 1.21.0
+
+toolchain go1.23.5
 
 require (
 	code.gopub.tech/tpl v0.0.0-20240105152312-ac7d66edfae0
